@@ -44,7 +44,8 @@ type basmProg struct {
 	Lbd         bool        // the label of line Epos is written before the entry directive
 	Gio         string      // machine-wide default iomode written in the bmdef line
 	AttFirst    bool        // which end of every ioatt pair is written first
-	Data        []int       // the ROM data words of every processor
+	Data        [][]int     // the ROM data words of each processor
+	ShareCode   bool        // both processors are defined on one code section
 	Outs        [][2]uint64 // expected <<external output, value>> in order
 	AscOuts     [][2]uint64 // the stream of the as-coded interpreter (known deviations of the pinned tree)
 	Steps       int
@@ -80,8 +81,28 @@ func basmText(p basmProg) (src string, outMap []int, ok bool) {
 	sb.WriteString("%macro twice 0\n\tinc r1\n\tinc r1\n%endmacro\n")
 	usesIn := make([]bool, ncp)
 	ports := make([]map[int]bool, ncp)
+	// the second section is named like an alternative the assembler would generate for the first
+	secName := func(c int) string {
+		if c == 0 || p.ShareCode {
+			return "code"
+		}
+		return "code_" + strconv.Itoa(c-1)
+	}
 	for c, prog := range p.Progs {
-		fmt.Fprintf(&sb, "%%section code%d .romtext iomode:sync\n", c)
+		if c > 0 && p.ShareCode {
+			// one code section for both processors (the usage of the ports is still collected)
+			ports[c] = map[int]bool{}
+			for _, l := range prog {
+				if l.Op == "send" {
+					ports[c][l.A] = true
+				}
+				if l.Op == "recv" {
+					usesIn[c] = true
+				}
+			}
+			continue
+		}
+		fmt.Fprintf(&sb, "%%section %s .romtext iomode:sync\n", secName(c))
 		target := map[int]bool{p.Entry: true}
 		ports[c] = map[int]bool{}
 		for _, l := range prog {
@@ -131,19 +152,24 @@ func basmText(p basmProg) (src string, outMap []int, ok bool) {
 			}
 		}
 		sb.WriteString("%endsection\n")
-		if len(p.Data) > 0 {
+	}
+	for c := range p.Progs {
+		if c < len(p.Data) && len(p.Data[c]) > 0 {
 			fmt.Fprintf(&sb, "%%section data%d .romdata\n", c)
-			for k, v := range p.Data {
+			if p.ShareCode && c == 1 {
+				sb.WriteString("\tpad db 0x77\n")
+			}
+			for k, v := range p.Data[c] {
 				fmt.Fprintf(&sb, "\td%d db 0x%02x\n", k, v)
 			}
 			sb.WriteString("%endsection\n")
 		}
 	}
 	for c := range p.Progs {
-		if len(p.Data) > 0 {
-			fmt.Fprintf(&sb, "%%meta cpdef cpu%d romcode:code%d, romdata:data%d, ramsize:8\n", c, c, c)
+		if c < len(p.Data) && len(p.Data[c]) > 0 {
+			fmt.Fprintf(&sb, "%%meta cpdef cpu%d romcode:%s, romdata:data%d, ramsize:8\n", c, secName(c), c)
 		} else {
-			fmt.Fprintf(&sb, "%%meta cpdef cpu%d romcode:code%d, ramsize:8\n", c, c)
+			fmt.Fprintf(&sb, "%%meta cpdef cpu%d romcode:%s, ramsize:8\n", c, secName(c))
 		}
 	}
 	pair := func(name, a, b string) {
@@ -231,12 +257,17 @@ func genBasmPrograms(r *evid.Run, scratch string, rsize, len0, budget, ncp int, 
 
 // genBasmProgramsData is genBasmPrograms for sources with a ROM data section of ndata words.
 func genBasmProgramsData(r *evid.Run, scratch string, rsize, len0, budget, ncp, ndata int, entryAny, dirAny, macroHeavy bool, n int, seed int64) (progs []basmProg, transitions int64, ok bool) {
+	return genBasmProgramsOpt(r, scratch, rsize, len0, budget, ncp, ndata, entryAny, dirAny, macroHeavy, false, n, seed)
+}
+
+// genBasmProgramsOpt: smallMov restricts literal loads to `mov` of numbers below 32.
+func genBasmProgramsOpt(r *evid.Run, scratch string, rsize, len0, budget, ncp, ndata int, entryAny, dirAny, macroHeavy, smallMov bool, n int, seed int64) (progs []basmProg, transitions int64, ok bool) {
 	nout := 2
-	dir := filepath.Join(scratch, fmt.Sprintf("g_%d_%d_%d_%d_%v_%v_%v", rsize, len0, ncp, ndata, entryAny, dirAny, macroHeavy))
+	dir := filepath.Join(scratch, fmt.Sprintf("g_%d_%d_%d_%d_%v_%v_%v_%v", rsize, len0, ncp, ndata, entryAny, dirAny, macroHeavy, smallMov))
 	os.MkdirAll(dir, 0o755)
 	up := func(b bool) string { return strings.ToUpper(fmt.Sprint(b)) }
-	cfg := fmt.Sprintf("SPECIFICATION Spec\nCONSTANTS\n RSize = %d\n Len0 = %d\n Budget = %d\n NOut = %d\n NCP = %d\n NData = %d\n EntryAnywhere = %s\n DirectiveAnywhere = %s\n MacroHeavy = %s\nINVARIANT TypeOK\nCHECK_DEADLOCK FALSE\n",
-		rsize, len0, budget, nout, ncp, ndata, up(entryAny), up(dirAny), up(macroHeavy))
+	cfg := fmt.Sprintf("SPECIFICATION Spec\nCONSTANTS\n RSize = %d\n Len0 = %d\n Budget = %d\n NOut = %d\n NCP = %d\n NData = %d\n EntryAnywhere = %s\n DirectiveAnywhere = %s\n MacroHeavy = %s\n SmallMovOnly = %s\nINVARIANT TypeOK\nCHECK_DEADLOCK FALSE\n",
+		rsize, len0, budget, nout, ncp, ndata, up(entryAny), up(dirAny), up(macroHeavy), up(smallMov))
 	res, err := tlc.Run(tlc.Options{SpecDir: specDir, Module: "BasmSem", CfgText: cfg, Workers: 1, Timeout: 20 * time.Minute,
 		Args: []string{"-simulate", fmt.Sprintf("file=%s/b,num=%d", dir, n), "-depth", strconv.Itoa(ncp*(len0+1) + budget + 2), "-seed", strconv.FormatInt(seed, 10)}})
 	if err != nil {
@@ -244,7 +275,7 @@ func genBasmProgramsData(r *evid.Run, scratch string, rsize, len0, budget, ncp, 
 		return nil, 0, false
 	}
 	if res.Violation != "" {
-		r.Inconclusive("TLC rejects BasmSem: %s %s", res.Violation, res.ViolationName)
+		r.Inconclusive("TLC rejects BasmSem: %s %s\n%s\n%s", res.Violation, res.ViolationName, cfg, tailStr(res.Stdout, 1500))
 		return nil, 0, false
 	}
 	files, _ := filepath.Glob(filepath.Join(dir, "b_*"))
@@ -258,10 +289,17 @@ func genBasmProgramsData(r *evid.Run, scratch string, rsize, len0, budget, ncp, 
 		last := beh[len(beh)-1].Vars
 		p := basmProg{RSize: rsize, Entry: int(tlaval.Int(last["entry"])), Epos: int(tlaval.Int(last["epos"])), Lbd: tlaval.Bool(last["lbd"]),
 			Gio: tlaval.Str(last["gio"]), AttFirst: tlaval.Bool(last["attfirst"]), Steps: int(tlaval.Int(last["steps"]))}
-		for k := 0; k < ndata; k++ {
-			if v, ok := tlaval.Get(last["data"], int64(k)); ok {
-				p.Data = append(p.Data, int(tlaval.Int(v)))
+		p.ShareCode = tlaval.Bool(last["sharecode"])
+		for c := 0; c < ncp && ndata > 0; c++ {
+			var words []int
+			if dv, ok := tlaval.Get(last["data"], int64(c)); ok {
+				for k := 0; k < ndata; k++ {
+					if v, ok := tlaval.Get(dv, int64(k)); ok {
+						words = append(words, int(tlaval.Int(v)))
+					}
+				}
 			}
+			p.Data = append(p.Data, words)
 		}
 		complete := true
 		for _, pv := range tlaval.AsSeq(last["progs"]) {
@@ -318,6 +356,16 @@ func runC05(r *evid.Run) {
 	// sources with ROM data sections
 	for i, a := range []struct{ rsize, ncp, n int }{{8, 1, r.Pick(60, 500)}, {16, 2, r.Pick(40, 300)}} {
 		ps, tr, ok := genBasmProgramsData(r, scratch, a.rsize, 8, 50, a.ncp, 3, false, i == 1, true, a.n, r.Seed*7+10+int64(i))
+		if !ok {
+			return
+		}
+		progs = append(progs, ps...)
+		transitions += tr
+	}
+	// long programs whose literals are all small `mov`s: the short load instruction the assembler
+	// chooses is narrower than the jumps
+	{
+		ps, tr, ok := genBasmProgramsOpt(r, scratch, 8, 36, 90, 1, 0, false, false, false, true, r.Pick(25, 200), r.Seed*7+20)
 		if !ok {
 			return
 		}
